@@ -9,6 +9,7 @@ HARNESSES = {
     'h_c03/asan': ('h_c03', 'asan', dict(sources=['h_c03.c', 'legacy_vectors.c'], cflags=['-I' + T, '-Wno-deprecated-declarations'], hash_subdirs=['tests'])),
     'h_c03/plain': ('h_c03', 'plain', dict(sources=['h_c03.c', 'legacy_vectors.c'], cflags=['-I' + T, '-Wno-deprecated-declarations'], hash_subdirs=['tests'])),
     'h_c03/val': ('h_c03', 'val', dict(sources=['h_c03.c', 'legacy_vectors.c'], cflags=['-I' + T, '-Wno-deprecated-declarations'], hash_subdirs=['tests'])),
+    'h_c03/msan': ('h_c03', 'msan', dict(sources=['h_c03.c', 'legacy_vectors.c'], cflags=['-I' + T, '-Wno-deprecated-declarations'], hash_subdirs=['tests'])),
     'h_c03fuzz': ('h_c03fuzz', 'fuzz', dict(sources=['h_c03.c', 'legacy_vectors.c'], cflags=['-I' + T, '-Wno-deprecated-declarations', '-DH_C03_FUZZ', '-DV_VIOL_ABORTS'], hash_subdirs=['tests'])),
     'decodecorpus': ('decodecorpus', 'plain', dict(sources=['empty.c'], repo_sources=['tests/decodecorpus.c', 'programs/util.c', 'programs/timefn.c'],
                                                    cflags=['-I' + os.path.join(build.REPO, 'programs'), '-w'], ldflags=['-lm'], refdec=False, hash_subdirs=['tests', 'programs'])),
@@ -132,6 +133,8 @@ def run(prop, tier, seed, t0):
     venv = dict(env, __wrapper__=VALGRIND, VERIF_SLOW='60')
     R.run_sharded(res, exes[3], [], nv, env=venv, label='h_c03/val', variant='val', first=na + npl, wall=7200 if thorough else 1500)
     vg_inputs = res.stat('inputs') - before
+    # MemorySanitizer: hostile input must not make the decoder branch on, index with, or hand to libc a byte nobody wrote (information leak / non-determinism)
+    nms = core.msan_stage(R, res, HARNESSES['h_c03/msan'], [], 300000 if thorough else 4000, na + npl + nv, env=env)
     fz = fuzz_stage(R, res, exes[1], seed, env, thorough)
     cov = {
         'evaluations': res.stat('inputs') + fz['executions'], 'coverage_guided_stage': fz, 'distinct_nontrivial': res.ncells('mutation') + res.ncells('outcome'),
@@ -140,7 +143,7 @@ def run(prop, tier, seed, t0):
                 'each input through one-shot, reused DCtx, usingDict/DDict/loadDictionary/refPrefix with true and arbitrary dictionaries, streaming (random segmentation, window limits, stableOut, multi-DDict), tables of 1..300 DDicts with random dictIDs under refMultipleDDicts and frames naming present/absent IDs, buffer-less, block-level decode, all inspectors, skippable reader, in-place decode; exact-size guard-paged source and destination, capacities 0/tiny/exact/large/around the literal-buffer placement edge of a block; under ASan+UBSan, natively with guard pages, and a share under valgrind memcheck (definedness). '
                 'then a coverage-guided stage: 16 libFuzzer processes (clang ASan+UBSan build of the tree, fixed -runs, seeds derived from VERIF_SEED) over the same multi-entry harness, seeded with the frame corpus and one field-aware mutation of each frame; artifacts are re-run alone and keyed like every other violation. '
                 'distinct non-trivial = distinct (origin, mutation kind) + (entry, outcome/error) cells',
-        'inputs_under_valgrind_memcheck': vg_inputs, 'static_dctx_runs': res.stat('static_dctx_runs'), 'multi_ddict_tables': res.stat('multi_ddict_tables'), 'multi_ddict_lookups': res.stat('multi_ddict_lookups'), 'multi_ddict_present_id_decoded': res.stat('multi_ddict_present_id_decoded'), 'multi_ddict_present_id_refused': res.stat('multi_ddict_present_id_refused'), 'multi_ddict_table_max_entries': res.maxes.get('multi_ddict_table_max_entries', 0), 'mutation_cells': res.cells.get('mutation', {}), 'one_shot_outcomes': core.topcells(res, 'outcome', 30), 'corpus_items': list(res.cells.get('corpus_size', {}).keys()),
+        'inputs_under_valgrind_memcheck': vg_inputs, 'inputs_under_memory_sanitizer': nms, 'static_dctx_runs': res.stat('static_dctx_runs'), 'multi_ddict_tables': res.stat('multi_ddict_tables'), 'multi_ddict_lookups': res.stat('multi_ddict_lookups'), 'multi_ddict_present_id_decoded': res.stat('multi_ddict_present_id_decoded'), 'multi_ddict_present_id_refused': res.stat('multi_ddict_present_id_refused'), 'multi_ddict_table_max_entries': res.maxes.get('multi_ddict_table_max_entries', 0), 'mutation_cells': res.cells.get('mutation', {}), 'one_shot_outcomes': core.topcells(res, 'outcome', 30), 'corpus_items': list(res.cells.get('corpus_size', {}).keys()),
     }
     assumptions = ['clean sanitizer runs are not memory safety: non-adjacent / intra-object overflows and reuse of freed memory after quarantine are invisible; guard pages see adjacent accesses by the assembly loops only',
                    'CPU budget 5 s + 80 us/KiB per input (all entry points) exceeded twice = hang', 'no 32-bit build']
